@@ -631,8 +631,12 @@ fn gen_def(rng: &mut Rng, universe: u32) -> SubsetDefinition {
 }
 
 fn gen_f1(rng: &mut Rng, which: u8, allow_errors: bool, rich: bool) -> (F1Spec, u16, Vec<(u32, u32)>) {
-    let wide = rng.chance(1, 3);
-    let max_entry: u16 = if wide { 256 + rng.below(60) as u16 } else { (if rich { 8 } else { 1 }) + rng.below(30) as u16 };
+    // the entry-index width switches at maxEntryIndex 255 -> 256: one case in six sits on that boundary
+    let boundary = rng.chance(1, 6);
+    let wide = if boundary { false } else { rng.chance(1, 3) };
+    let max_entry: u16 = if boundary { *rng.pick(&[253u16, 254, 255, 256, 257]) }
+        else if wide { 256 + rng.below(60) as u16 } else { (if rich { 8 } else { 1 }) + rng.below(30) as u16 };
+    let wide = max_entry >= 256;
     let max_gm: u16 = if allow_errors && rng.chance(1, 40) { max_entry + 1 }
         else if rich { 1 + rng.below(5) as u16 }
         else if rng.chance(1, 4) { max_entry } else { rng.below(max_entry as u64 + 1) as u16 };
